@@ -302,10 +302,9 @@ class Parameter(Accessible):
         """
         self.fixExport()
         if self.constant is not None:
-            constant = self.datatype(self.constant)
-            # The value of the `constant` property should be the
-            # serialised version of the constant, or unset
-            self.constant = self.datatype.export_value(constant)
+            # keep the validated constant: it is serialised when exported
+            # (finish is called several times, serialising here is not idempotent)
+            self.constant = self.datatype(self.constant)
             self.readonly = True
         for propname in 'default', 'value':
             if propname in self.propertyValues:
@@ -327,7 +326,10 @@ class Parameter(Accessible):
         return self.datatype.export_value(self.value)
 
     def for_export(self):
-        return dict(self.exportProperties(), readonly=self.readonly)
+        result = dict(self.exportProperties(), readonly=self.readonly)
+        if self.constant is not None:
+            result['constant'] = self.datatype.export_value(self.constant)
+        return result
 
     def getProperties(self):
         """get also properties of datatype"""
